@@ -132,6 +132,8 @@ def harnesses(tier):
         Harness('lemma.non_influence', h_non_influence, []),
     ]
     hs += C01_normalize.harnesses(tier)
+    from props import C01_transforms
+    hs += C01_transforms.harnesses(tier)
     return hs
 
 
